@@ -466,6 +466,157 @@ fn libm_gamma(x: f64) -> f64 {
     g
 }
 
+// ------------------------------------------------------------------ weighted rules, complex mixtures
+/// basis functions of exponential type <= 1 with closed-form weighted integrals
+const BASIS: [&str; 14] = ["1", "exp(-x)", "exp(-x/2)", "exp(x/4)", "sin(x/4)", "sin(x/2)", "sin(3x/4)", "sin(x)", "cos(x/4)", "cos(x/2)", "cos(3x/4)", "cos(x)", "x", "x^2/2"];
+fn basis(i: usize, x: f64) -> f64 {
+    match i {
+        0 => 1.0,
+        1 => (-x).exp(),
+        2 => (-0.5 * x).exp(),
+        3 => (0.25 * x).exp(),
+        4..=7 => (0.25 * (i - 3) as f64 * x).sin(),
+        8..=11 => (0.25 * (i - 7) as f64 * x).cos(),
+        12 => x,
+        _ => 0.5 * x * x,
+    }
+}
+/// Bessel J_nu (nu = 0, 1) by its power series (|x| <= 1)
+fn bessel_j(order: u32, x: f64) -> f64 {
+    let mut term = if order == 0 { 1.0 } else { x / 2.0 };
+    let mut s = term;
+    for m in 1..40 {
+        term *= -(x / 2.0) * (x / 2.0) / (m as f64 * (m + order) as f64);
+        s += term;
+    }
+    s
+}
+/// weighted integral of basis function i for routine r (0 Laguerre, 1 Hermite, 2 Chebyshev, 3 Chebyshev second kind)
+fn basis_integral(r: usize, i: usize) -> f64 {
+    let pi = std::f64::consts::PI;
+    let a = [0.0, -1.0, -0.5, 0.25][i.min(3)];
+    let b = if (4..=7).contains(&i) { 0.25 * (i - 3) as f64 } else if (8..=11).contains(&i) { 0.25 * (i - 7) as f64 } else { 0.0 };
+    match (r, i) {
+        (0, 0..=3) => 1.0 / (1.0 - a),
+        (0, 4..=7) => b / (1.0 + b * b),
+        (0, 8..=11) => 1.0 / (1.0 + b * b),
+        (0, _) => 1.0,
+        (1, 0..=3) => pi.sqrt() * (a * a / 4.0).exp(),
+        (1, 4..=7) => 0.0,
+        (1, 8..=11) => pi.sqrt() * (-b * b / 4.0).exp(),
+        (1, 12) => 0.0,
+        (1, _) => pi.sqrt() / 4.0,
+        (2, 0) => pi,
+        (2, 1..=3) => pi * bessel_i(0, a),
+        (2, 4..=7) => 0.0,
+        (2, 8..=11) => pi * bessel_j(0, b),
+        (2, 12) => 0.0,
+        (2, _) => pi / 4.0,
+        (_, 0) => pi / 2.0,
+        (_, 1..=3) => pi * bessel_i(1, a) / a,
+        (_, 4..=7) => 0.0,
+        (_, 8..=11) => pi * bessel_j(1, b) / b,
+        (_, 12) => 0.0,
+        (_, _) => pi / 16.0,
+    }
+}
+const COEFFS: [(f64, f64); 4] = [(1.0, 0.0), (0.0, 1.0), (-0.5, 1.0), (1.0, -1.0)];
+#[derive(Serialize, Deserialize, Clone, Debug)]
+pub struct MixPt {
+    pub routine: usize,
+    pub f1: usize,
+    pub f2: usize,
+    pub c1: usize,
+    pub c2: usize,
+    pub tol: f64,
+}
+pub struct ComplexMixtures;
+impl Check for ComplexMixtures {
+    type P = MixPt;
+    fn name(&self) -> &'static str {
+        "weighted-rules-complex"
+    }
+    fn rule(&self) -> String {
+        format!("the four weighted integrators on complex integrands c1 f1 + c2 f2: every ordered pair of two different basis functions from {:?} (exponential type <= 1, closed-form weighted integrals) x coefficients {:?}^2 x tolerances; the class is reliable (Ok required, error <= 4 tol in modulus); signature = (routine, classes of f1 and f2, outcome)", BASIS, COEFFS)
+    }
+    fn points(&self, t: Tier) -> Vec<MixPt> {
+        let mut v = vec![];
+        for routine in 0..4 {
+            for f1 in 0..BASIS.len() {
+                for f2 in 0..BASIS.len() {
+                    if f1 == f2 {
+                        continue;
+                    }
+                    for c1 in 0..4 {
+                        for c2 in 0..4 {
+                            if t == Tier::Quick && (f1 + f2 + c1 + c2) % 2 == 1 {
+                                continue;
+                            }
+                            for &tol in &t.pick(vec![1e-4, 1e-9], vec![1e-3, 1e-5, 1e-7, 1e-9]) {
+                                // (the Laguerre and Hermite tables carry about 10 digits: consecutive rules cannot agree to
+                                // 1e-9 on a sum of two functions with coefficients of modulus up to 1.5 - Err is legitimate there)
+                                let tol = if routine <= 1 && tol < 1e-7 { 1e-7 } else { tol };
+                                v.push(MixPt { routine, f1, f2, c1, c2, tol });
+                            }
+                        }
+                    }
+                }
+            }
+        }
+        v
+    }
+    fn run(&self, p: &MixPt) -> Outcome {
+        let mut o = Outcome::new();
+        let subj = format!("integrate::{}", WEIGHTED[p.routine]);
+        let (c1, c2) = (C::new(COEFFS[p.c1].0, COEFFS[p.c1].1), C::new(COEFFS[p.c2].0, COEFFS[p.c2].1));
+        let exact = c1 * basis_integral(p.routine, p.f1) + c2 * basis_integral(p.routine, p.f2);
+        let (f1, f2) = (p.f1, p.f2);
+        let g = move |x: f64| c1 * basis(f1, x) + c2 * basis(f2, x);
+        let res = vcore::guard(|| match p.routine {
+            0 => integrate_laguerre::<C, _>(g, p.tol),
+            1 => integrate_hermite::<C, _>(g, p.tol),
+            2 => integrate_chebyshev::<C, _>(g, p.tol),
+            _ => integrate_chebyshev_second::<C, _>(g, p.tol),
+        });
+        let ctx = || format!("{:?}: ({}) {} + ({}) {}", p, c1, BASIS[p.f1], c2, BASIS[p.f2]);
+        // Gauss-Laguerre has 12 rules: on e^{sx} the n-point rule errs by about (|s|/|2-s|)^(2n); "Ok" is demanded only
+        // when that has fallen below a tenth of the tolerance one rule before the last
+        let rate2 = |i: usize| -> f64 {
+            match i {
+                1..=3 => { let a = [0.0, -1.0, -0.5, 0.25][i]; (a / (2.0 - a)) * (a / (2.0 - a)) }
+                4..=7 => { let b = 0.25 * (i - 3) as f64; b * b / (4.0 + b * b) }
+                8..=11 => { let b = 0.25 * (i - 7) as f64; b * b / (4.0 + b * b) }
+                _ => 0.0,
+            }
+        };
+        let reliable = p.routine != 0 || rate2(p.f1).max(rate2(p.f2)).powi(11) <= 0.1 * p.tol;
+        let class = match res {
+            Err(m) => {
+                o.viol(&subj, "never-panics", format!("{}: {}", ctx(), m));
+                "panic"
+            }
+            Ok(Err(e)) => {
+                if reliable {
+                    o.viol(&subj, "ok-in-the-reliable-class", format!("{}: Err({})", ctx(), e));
+                }
+                "err"
+            }
+            Ok(Ok(v)) => {
+                let bound = 4.0 * p.tol + 1e-9 * (1.0 + exact.norm());
+                let err = (v - exact).norm();
+                o.metric(&format!("{}-complex-error/bound", WEIGHTED[p.routine]), err / bound);
+                if !(err <= bound) {
+                    o.viol(&subj, "ok-result-within-tolerance", format!("{}: got {} exact {} (error {:e}, bound {:e})", ctx(), v, exact, err, bound));
+                }
+                "ok"
+            }
+        };
+        let cls = |i: usize| match i { 0 => "const", 1..=3 => "exp", 4..=7 => "sin", 8..=11 => "cos", _ => "poly" };
+        o.sig = format!("{}|{}+{}|{}|reliable:{}", WEIGHTED[p.routine], cls(p.f1), cls(p.f2), class, reliable);
+        o
+    }
+}
+
 // ------------------------------------------------------------------ Romberg
 #[derive(Serialize, Deserialize, Clone, Debug)]
 pub struct RomPt {
@@ -621,6 +772,7 @@ pub fn main(mut r: Report) -> ! {
     ];
     r.run(&Interval);
     r.run(&Weighted);
+    r.run(&ComplexMixtures);
     r.run(&Romberg);
     r.run(&Rejections);
     r.finish()
